@@ -9,7 +9,10 @@ from harness.c02 import morph_txt
 def impl(case):
     from harness import cls
     from paulie.classifier import recording_morph_factory as rmf
+    import signal, time, traceback
+    t0 = time.time()
     plain, _, _ = cls.classify(case["gens"])
+    t_plain = time.time() - t0
     # note where each recording builder stops writing frames (one builder per connected component)
     marks = []
     orig = rmf.RecordingMorphFactory.build
@@ -23,7 +26,20 @@ def impl(case):
         return r
     rmf.RecordingMorphFactory.build = build
     try:
+        # the recorded run gets a budget of its own (at least 20 s, 50 times the plain run): if it is still running then,
+        # report where it is instead of losing the case to the worker's time-out
+        signal.setitimer(signal.ITIMER_REAL, max(20.0, 50 * t_plain))
         recd, c, rec = cls.classify(case["gens"], record=True)
+        signal.setitimer(signal.ITIMER_REAL, 60.0)
+    except BaseException as e:  # noqa
+        if type(e).__name__ != "CaseTimeout":
+            raise
+        signal.setitimer(signal.ITIMER_REAL, 60.0)
+        fr = [f for f in traceback.extract_tb(e.__traceback__) if f.filename.endswith("recording_morph_factory.py")]
+        names = [f.name for f in fr]
+        # the step of the pipeline that is running (the frame called by _pipeline), not the helper the signal happened to land in
+        site = names[names.index("_pipeline") + 1] if "_pipeline" in names[:-1] else (names[-1] if names else "?")
+        return {"plain": plain, "recorded_hang": site, "budget_s": max(20.0, 50 * t_plain), "plain_s": t_plain}
     finally:
         rmf.RecordingMorphFactory.build = orig
     frames = rec.get_size()
@@ -58,13 +74,15 @@ def main():
     cases += G.long_chain_cases(ck.rng, 28, 5) + G.long_chain_cases(ck.rng, 28, 6) + (G.long_chain_cases(ck.rng, 28, 7) if not ck.quick else G.long_chain_cases(ck.rng, 8, 7))
     cases += G.dense_collections(ck.rng, 600 if ck.quick else 6000, 4, 5)
     cases.append(("corpus", 3, ["XYI", "XXZ", "IZI", "YXI", "ZII"]))
+    if not ck.quick:   # the recorded witness of the non-terminating recorded run (costs its whole budget: thorough tier only)
+        cases.append(("corpus", 7, ["XXIIIII", "IXXIIII", "IIXXIII", "IIIXXII", "IIIIXXI", "IIIIIXX", "XZIIIII", "IXZIIII", "IIXZIII", "IIIXZII", "IIIIXZI", "IIIIIXZ", "IZZZZXI"]))
     cases.append(("corpus", 3, ["YZZ", "ZZI", "XYZ", "IXI", "YIZ", "IYY"]))
     res = ck.impl("c11", [{"gens": g} for _, _, g in cases], per_case_s=120)
     # validity of both reductions by the verified validator
     req = []
     for (kind, n, g), r in zip(cases, res):
         for side in ("plain", "recorded"):
-            if "exc" in r:
+            if "exc" in r or "recorded_hang" in r:
                 req.append("closure_card 1 X")
             else:
                 req.append("reduction %d %s %s" % (n, ",".join(r[side]["gens"]), morph_txt(r[side]["morphs"])))
@@ -75,6 +93,11 @@ def main():
     for i, ((kind, n, g), r) in enumerate(zip(cases, res)):
         if "exc" in r:
             ck.fail(None, "classification with/without recorder raised %s on %s" % (r["exc"], g), {"n": n, "gens": g, "result": r}); continue
+        if "recorded_hang" in r:
+            ck.fail("recorded-run-does-not-terminate:" + r["recorded_hang"],
+                    "classification with a recorder attached is still running after %.0f s (plain run: %.2f s) in %s on %s" % (r["budget_s"], r["plain_s"], r["recorded_hang"], g),
+                    {"n": n, "gens": g, "where": r["recorded_hang"]})
+            continue
         p, q = r["plain"], r["recorded"]
         vp, vq = val[2 * i], val[2 * i + 1]
         stats["frames_total"] += r["frames"]
